@@ -40,7 +40,12 @@ let prop_name x = match x with Sexp.L (Sexp.A n :: _) -> n | _ -> ""
 (* canonical: sorted by property name, repeated properties keep their order *)
 let sx_props ps =
   let l = List.map sx_prop ps in
-  Sexp.L (Sexp.A "props" :: List.stable_sort (fun a b -> compare (prop_name a) (prop_name b)) l)
+  (* subscription identifiers are a set (their order is map-iteration order in the broker) *)
+  let key x = if prop_name x = "subid" then Sexp.to_string x else prop_name x in
+  let keycmp a b = let ka = key a and kb = key b in
+    if prop_name a = "subid" && prop_name b = "subid" then compare (int_of_string (Sexp.atom (List.nth (Sexp.list a) 1))) (int_of_string (Sexp.atom (List.nth (Sexp.list b) 1)))
+    else compare (prop_name a) (prop_name b) |> fun c -> if c <> 0 then c else (ignore ka; ignore kb; 0) in
+  Sexp.L (Sexp.A "props" :: List.stable_sort keycmp l)
 let props_of_sx x = match x with
   | Sexp.L (Sexp.A "props" :: ps) -> List.map prop_of_sx ps
   | _ -> failwith ("props " ^ Sexp.to_string x)
@@ -218,10 +223,21 @@ let impl_step_obs (step_obs : Sexp.t) : (int * Sexp.t list * bool) list =
 let strip_pid x = match x with
   | Sexp.L [Sexp.A "publish"; d; q; r; t; p; _; ps] -> Sexp.L [Sexp.A "publish"; d; q; r; t; p; Sexp.A "_"; ps]
   | _ -> x
+let rec strip_pid_all x = match x with
+  | Sexp.L [Sexp.A "publish"; d; q; r; t; p; _; ps] -> Sexp.L [Sexp.A "publish"; d; q; r; t; p; Sexp.A "_"; ps]
+  | Sexp.L [Sexp.A "pubrel"; _; c; ps] -> Sexp.L [Sexp.A "pubrel"; Sexp.A "_"; c; ps]
+  | _ -> x
 let key_tp x = match x with Sexp.L [Sexp.A "publish"; _; _; _; t; p; _; _] -> Some (t, p) | _ -> None
+let is_publish x = key_tp x <> None
+let is_suback x = match x with Sexp.L (Sexp.A "suback" :: _) -> true | _ -> false
+let cmp_nopid a b = compare (Sexp.to_string (strip_pid a)) (Sexp.to_string (strip_pid b))
 let rec sort_runs (l : Sexp.t list) : Sexp.t list =
   match l with
   | [] -> []
+  | x :: rest when is_suback x ->
+    let rec take acc = function y :: r when is_publish y -> take (y :: acc) r | r -> (List.rev acc, r) in
+    let (run, rest') = take [] rest in
+    x :: (List.sort cmp_nopid run @ sort_runs rest')
   | x :: _ ->
     (match key_tp x with
      | None -> x :: sort_runs (List.tl l)
@@ -232,8 +248,31 @@ let rec sort_runs (l : Sexp.t list) : Sexp.t list =
        let (run, rest) = take [] l in
        List.sort (fun a b -> compare (Sexp.to_string (strip_pid a)) (Sexp.to_string (strip_pid b))) run @ sort_runs rest)
 
+(* the packet handler (acks, SUBACK) and the poll loop (PUBLISH) of one connection race: compare the
+   two sub-sequences, each in its own order *)
+let is_flow x = match x with Sexp.L (Sexp.A ("publish" | "pubrel") :: _) -> true | _ -> false
+let split_flows pk = List.filter (fun x -> not (is_flow x)) pk @ List.filter is_flow pk
+
+(* outbound topic aliases: which copy of a burst carries the topic depends on queue order; restore the
+   topic from the per-socket alias table so that copies compare equal (alias values are kept) *)
+let resolve_aliases (steps : (int * Sexp.t list * bool) list list) =
+  let tbl : (int * string, Sexp.t) Hashtbl.t = Hashtbl.create 16 in
+  List.map (fun step -> List.map (fun (c, pk, o) ->
+      (c, List.map (fun x -> match x with
+           | Sexp.L [Sexp.A "publish"; d; q; r; t; p; pid; Sexp.L (Sexp.A "props" :: ps)] ->
+             (match List.find_opt (fun pr -> prop_name pr = "alias") ps with
+              | Some (Sexp.L [_; Sexp.A a]) ->
+                if t = Sexp.A "x" then
+                  (match Hashtbl.find_opt tbl (c, a) with
+                   | Some t' -> Sexp.L [Sexp.A "publish"; d; q; r; t'; p; pid; Sexp.L (Sexp.A "props" :: ps)]
+                   | None -> x)
+                else (Hashtbl.replace tbl (c, a) t; x)
+              | _ -> x)
+           | _ -> x) pk, o)) step) steps
+
 (* rename broker-assigned packet ids per socket by first appearance (outbound flows) *)
 let rename_pids (steps : (int * Sexp.t list * bool) list list) : (int * Sexp.t list * bool) list list =
+  let steps = resolve_aliases steps in
   let tbl : (int * string, string) Hashtbl.t = Hashtbl.create 16 in
   let cnt : (int, int) Hashtbl.t = Hashtbl.create 16 in
   let ren c pid =
@@ -246,7 +285,7 @@ let rename_pids (steps : (int * Sexp.t list * bool) list list) : (int * Sexp.t l
       (c, List.map (fun x -> match x with
            | Sexp.L [Sexp.A "publish"; d; q; r; t; p; Sexp.A pid; ps] -> Sexp.L [Sexp.A "publish"; d; q; r; t; p; Sexp.A (ren c pid); ps]
            | Sexp.L [Sexp.A "pubrel"; Sexp.A pid; cd; ps] -> Sexp.L [Sexp.A "pubrel"; Sexp.A (ren c pid); cd; ps]
-           | _ -> x) (sort_runs pk), o)) step) steps
+           | _ -> x) (sort_runs (split_flows pk)), o)) step) steps
 
 let sx_steps steps =
   Sexp.L (List.map (fun step -> Sexp.L (Sexp.A "s" :: List.map (fun (c, pk, o) ->
@@ -268,14 +307,58 @@ and run_with' (oracle : oracle_fn) (input : Sexp.t) (impl : Sexp.t) : Verdict.t 
   let isteps = Sexp.field "steps" impl in
   let n = min (List.length steps) (List.length isteps) in
   let steps = List.filteri (fun i _ -> i < n) steps and isteps = List.filteri (fun i _ -> i < n) isteps in
-  let picks = match Sexp.field_opt "picks" input with Some l -> List.map nat_of_sx l | None -> [] in
-  let s0 = st_init cfg hooks picks in
-  let (_, mobs_rev) = List.fold_left2 (fun (s, acc) step so ->
-      match (try event_of_sx step so with Unsupported_pkt w -> raise (Unsupported w)) with
-      | None -> (s, model_step_obs s [] :: acc)
-      | Some e -> let (s', outs) = Model.step s e in (s', model_step_obs s' outs :: acc)) (s0, []) steps isteps in
-  let mobs = rename_pids (List.rev mobs_rev) in
-  let iobs = rename_pids (List.map impl_step_obs isteps) in
+  let events = List.map2 (fun step so -> try event_of_sx step so with Unsupported_pkt w -> raise (Unsupported w)) steps isteps in
+  let iraw = List.map impl_step_obs isteps in
+  let iobs = rename_pids iraw in
+  let blank_aliased x = match x with
+    | Sexp.L [Sexp.A "publish"; d; q; r; _; p; pid; (Sexp.L (Sexp.A "props" :: ps) as pp)] when List.exists (fun pr -> prop_name pr = "alias") ps ->
+      Sexp.L [Sexp.A "publish"; d; q; r; Sexp.A "_"; p; pid; pp]
+    | _ -> x in
+  let mask step = List.map (fun (c, pk, o) -> (c, List.sort compare (List.map (fun x -> blank_aliased (strip_pid_all x)) (split_flows pk)), o)) step in
+  let imasked = List.map mask iraw in
+  (* the broker's random choices (member of a share group, which of several equal-QoS subscriptions an
+     onlyonce copy goes through) are resolved from its own trace: breadth-first over the choices, keeping
+     the model states whose step output matches the implementation's (packet ids masked) *)
+  let choice_vectors = [[]; [1]; [2]; [0; 1]; [0; 2]; [1; 0]; [1; 1]; [1; 2]; [2; 0]; [2; 1]; [2; 2]; [0; 0; 1]; [0; 1; 1]; [1; 0; 1]; [1; 1; 1]] in
+  let run_path (s0 : st) =
+    let rec go frontier evs ims =
+      match evs, ims with
+      | [], _ | _, [] -> frontier
+      | e :: evs', im :: ims' ->
+        let next = List.concat_map (fun (s, acc) ->
+            match e with
+            | None -> if mask (model_step_obs s []) = im then [(s, model_step_obs s [] :: acc)] else []
+            | Some ev ->
+              let try_cv cv =
+                let s1 = set_picks_tag (List.map nat_of_int cv) s.b_tag s in
+                let (s', outs) = Model.step s1 ev in
+                if Sys.getenv_opt "WIRE_MODEL_DEBUG" <> None then begin
+                  List.iter (fun (cid, q) -> prerr_endline (Printf.sprintf "  [model] queue %s cur=%d drained=%b: %s" (atom_of_bytes cid) (int_of_nat q.q_cur) q.q_drained
+                    (String.concat " " (List.map (fun e -> match e.e_body with QPub m -> Printf.sprintf "pub(%s,q%d,id%d,exp%s)" (atom_of_bytes m.m_payload) (int_of_n m.m_qos) (int_of_n m.m_pid) (match e.e_expiry with None -> "none" | Some x -> string_of_int (int_of_n x)) | QRel p -> Printf.sprintf "rel(%d)" (int_of_n p)) q.q_l)))) s'.b_queues;
+                  prerr_endline (Printf.sprintf "  [model] now=%d" (int_of_n s'.b_now)) end;
+                if Sys.getenv_opt "WIRE_MODEL_DEBUG" <> None then
+                  List.iter (fun o -> match o with
+                      | ODropped (cid, m, r) -> prerr_endline (Printf.sprintf "  [model] dropped cid=%s payload=%s reason=%s" (atom_of_bytes cid) (atom_of_bytes m.m_payload)
+                                                                 (match r with DFull -> "full" | DExpired -> "expired" | DExpiredInflight -> "expired_inflight" | DExceedsMax -> "exceeds"))
+                      | _ -> ()) outs;
+                let o = model_step_obs s' outs in
+                if mask o = im then Some (s', o :: acc) else None in
+              let (s_probe, _) = Model.step (set_picks_tag [] s.b_tag s) ev in
+              if s_probe.b_npick = s.b_npick then (match try_cv [] with Some r -> [r] | None -> [])
+              else List.filter_map try_cv choice_vectors) frontier in
+        let next = List.filteri (fun i _ -> i < 24) next in
+        if next = [] then
+          (* no choice explains this step: continue on the default path so that the report shows the first difference *)
+          (match frontier with
+           | (s, acc) :: _ ->
+             let (s', o) = (match e with None -> (s, model_step_obs s []) | Some ev -> let (s', outs) = Model.step s ev in (s', model_step_obs s' outs)) in
+             go [(s', o :: acc)] evs' ims'
+           | [] -> [])
+        else go next evs' ims' in
+    go [(s0, [])] events imasked in
+  let paths = run_path (st_init cfg hooks []) in
+  let cands = List.map (fun (_, acc) -> rename_pids (List.rev acc)) paths in
+  let mobs = match List.find_opt (fun m -> m = iobs) cands with Some m -> m | None -> (match cands with m :: _ -> m | [] -> []) in
   let agree = (mobs = iobs) in
   let (ok, kf) = oracle cfg hooks steps (List.map impl_step_obs isteps) isteps in
   let npub = List.length (List.filter (fun st -> List.exists (fun (_, pk, _) -> List.exists (fun p -> key_tp p <> None) pk) st) iobs) in
